@@ -454,6 +454,8 @@ def coerce(v, sort):
     """Convert v to `sort` where Python would (None/T -> Opt(T)); None if impossible."""
     if v.s == sort:
         return v
+    if isinstance(sort, Enum) and v.s == FUNC and isinstance(v.t, tuple) and v.t[0] == "bound" and v.t[2] in sort.values:
+        return sort.lit(v.t[2])          # a field holding one of the object's own bound methods: enumeration of the method names
     if isinstance(sort, Opt):
         if v.s == NONE:
             return sort.none()
@@ -473,6 +475,12 @@ def coerce(v, sort):
 def eq(a, b):
     a = lift(a, b.s if isinstance(b, V) else None)
     b = lift(b, a.s)
+    if isinstance(a.s, Enum) and b.s == FUNC:
+        cb = coerce(b, a.s)
+        b = b if cb is None else cb
+    if isinstance(b.s, Enum) and a.s == FUNC:
+        ca = coerce(a, b.s)
+        a = a if ca is None else ca
     if a.s.pyside or b.s.pyside:
         if a.s.pyside and b.s.pyside:
             return V(BOOL, z3.BoolVal(a.t == b.t and a.s == b.s))
